@@ -44,7 +44,7 @@ theorem handleCall_pending_id (env : Env V) (ex : Exports) (k : Nat) (c : Call V
     · split at h
       · simp at h
       · split at h
-        · simp at h
+        · split at h <;> simp at h
         · split at h
           · simp at h
           · exact dispatchMethod_pending_id env _ k c b _ _ p h
